@@ -19,6 +19,13 @@ CLAIMED = {
         "parse of the same text, for eager and lazy reading and through bnp.open on real files.",
         "Holds on the explored region only. The reference parse (int(), float(), str.split) and the grammars in pbt/formats.py and pbt/strategies.py are trusted; floats are compared within 8 ulp.",
         "Hypothesis grammar-based generation, reference-model oracle (independent Python parse)"),
+    "C03": (
+        "Generated tables and writing plans: Hypothesis builds tables of 13 entry types from Python values (int64 extremes and powers of ten, "
+        "finite floats, FASTA lengths around multiples of 80) and a plan that splits the rows into successive writes, a stream, or append "
+        "sessions on a plain or gzip file. The written body is compared with an independent canonical serializer, the file is read back "
+        "eagerly and lazily and compared with the input rows, and the plan's content must equal the single write byte for byte.",
+        "Holds on the explored region only. Trusts the canonical serializer in pbt/props/c03.py and Python's gzip. Tables are constructed from values; tables read from files with header context are exercised by C04/C05.",
+        "Hypothesis generation, round-trip + reference serializer + metamorphic (split writes == single write)"),
     "C04": (
         "Model-based generated histories: Hypothesis draws a source file with non-canonical spellings and a program of selections, "
         "concatenations, field replacements and interleaved write / to-rows observations over a pool of lazily read tables; a byte-level model "
